@@ -567,7 +567,38 @@ func init() {
 		return in.fromTerm(t, intInfo{64, true})
 	}
 	intrinsics["os.ReadFile"] = func(in *Interp, caller *frame, fn *ssa.Function, args []Value) Value { return in.vfsReadFile(fn, args[0]) }
-	intrinsics["path/filepath.Abs"] = func(in *Interp, caller *frame, fn *ssa.Function, args []Value) Value { return in.vfsAbs(args[0]) }
+	intrinsics["path/filepath.Abs"] = func(in *Interp, caller *frame, fn *ssa.Function, args []Value) Value {
+		if _, isSym := args[0].(*SymStr); isSym {
+			// interpret the library's own Abs (Clean/Join are pure Go); only the working directory is virtual
+			if fn.Blocks == nil {
+				fn.Pkg.Build()
+			}
+			delete(in.fninfo, fn)
+			fi := &fnInfo{idx: map[ssa.Value]int{}, name: fn.String()}
+			n := 0
+			for _, p := range fn.Params {
+				fi.idx[p] = n
+				n++
+			}
+			for _, b := range fn.Blocks {
+				for _, ins := range b.Instrs {
+					if v, ok := ins.(ssa.Value); ok {
+						fi.idx[v] = n
+						n++
+					}
+				}
+			}
+			fi.nregs = n
+			r := in.callSSA(caller, fn, fi, args, nil)
+			in.classify(fn, fi)
+			in.fninfo[fn] = fi
+			return r
+		}
+		return in.vfsAbs(args[0])
+	}
+	intrinsics["os.Getwd"] = func(in *Interp, caller *frame, fn *ssa.Function, args []Value) Value {
+		return Tuple{in.vfsGet().cwd, Iface{}}
+	}
 	intrinsics["path/filepath.Walk"] = func(in *Interp, caller *frame, fn *ssa.Function, args []Value) Value {
 		return in.vfsWalk(caller, fn, args[0], args[1])
 	}
@@ -686,10 +717,62 @@ func (in *Interp) tryStringMethodV(i Iface) (Value, bool) {
 
 // ---- fmt ----
 
+// sprintfSym handles a format string with symbolic bytes and no operands (the shape fail.FromError produces when it
+// passes an error text as format): every '%' starts a directive that has no operand.
+func (in *Interp) sprintfSym(format Value, args []Value) Value {
+	if len(args) != 0 {
+		in.unsupported("fmt.Sprintf with symbolic format string and operands")
+	}
+	b := strBytes(format)
+	st := in.st
+	is := func(v Value, c byte) bool { return in.branch(in.byteEq(v, int64(c))) }
+	var out []Value
+	i := 0
+	for i < len(b) {
+		if !is(b[i], '%') {
+			out = append(out, b[i])
+			i++
+			continue
+		}
+		i++
+		// flags, width, precision
+		for i < len(b) {
+			t := in.intTerm(b[i], 8)
+			c8 := func(c byte) *term.T { return st.BVC(uint64(c), 8) }
+			flag := st.Or(st.Or(st.Eq(t, c8('#')), st.Eq(t, c8('+'))), st.Or(st.Eq(t, c8('-')), st.Or(st.Eq(t, c8(' ')), st.Eq(t, c8('.')))))
+			digit := st.And(st.Cmp(term.OULe, c8('0'), t), st.Cmp(term.OULe, t, c8('9')))
+			if !in.branch(st.Or(flag, digit)) {
+				break
+			}
+			i++
+		}
+		if i >= len(b) {
+			out = append(out, strBytes("%!(NOVERB)")...)
+			break
+		}
+		v := b[i]
+		i++
+		if is(v, '%') {
+			out = append(out, int64('%'))
+			continue
+		}
+		if is(v, '*') || is(v, '[') {
+			in.unsupported("fmt.Sprintf: symbolic format with '*' or '[' directive")
+		}
+		if !in.branch(st.Cmp(term.OULt, in.intTerm(v, 8), st.BVC(0x80, 8))) {
+			in.unsupported("fmt.Sprintf: symbolic format with a non-ASCII verb")
+		}
+		out = append(out, strBytes("%!")...)
+		out = append(out, v)
+		out = append(out, strBytes("(MISSING)")...)
+	}
+	return mkStr(out)
+}
+
 func (in *Interp) sprintf(format Value, args []Value) Value {
 	f, ok := format.(string)
 	if !ok {
-		in.unsupported("fmt.Sprintf with symbolic format string")
+		return in.sprintfSym(format, args)
 	}
 	var out Value = ""
 	argi := 0
